@@ -344,6 +344,10 @@ def make_counterfactual_graph(
                         return cf_graph, None
                     new_event = update_event(new_event, preferred_node, eliminated_node)
 
+    # merge_pw drops a parent of the eliminated node once it is left without edges; when that parent
+    # is itself part of the event (e.g., a self-intervened variable) it still belongs to the graph
+    for variable in new_event:
+        cf_graph.add_node(variable)
     ancestors = cf_graph.ancestors_inclusive(new_event)
     rv_graph = cf_graph.subgraph(ancestors)
     return rv_graph, new_event
